@@ -15,10 +15,18 @@ RULE = ("random cases: a configuration (latency in {0,1,2,7,100,101} ms, fee in 
         "whose 1 + fee has a terminating reciprocal (0, 0.25, 1, -0.5, 0.6; also 0.001, -1, -2 without boundary orders); every time in force (ioc / fok / day / gtc / gtc post-only, 9th op "
         "argument, observed as `echo_tif`) on market and limit orders; strategies from 2 and client order ids from 3 values (repeated ids, also across instruments); request times at 1.7e12 ms, "
         "before the epoch and across a day boundary, a step back of 1 ms; latencies up to 60 001 ms; `trades since` exactly at / one ms around a fill's exchange time or far before everything; "
-        "up to 8 assets and 6 instruments. A case is distinct by the SHA-1 of its op lines and non-trivial when the implementation's observation blocks differ at least once")
+        "up to 8 assets and 6 instruments. CONFIGURATION-SHAPE family (a quarter as many cases again, own PRNG stream, ids cfg<n>; the mode token of `init` carries the shape "
+        "`:<m|b|k>:<tok>.<tok>...`): the exchange id the mock stands for is Mock / BinanceSpot / Kraken (config, snapshot, instruments, client, request keys; every exchange id that comes back - "
+        "snapshot, events, response keys, ExchangeOffline - is compared with it and a difference printed as `exch-mismatch`), the instruments handed to MockExchange::new are spot / perpetual / "
+        "future / option with contract size 1 / 10 / 0.01, a settlement asset that is the quote, the base, a third asset or one WITHOUT balance, quoted in the underlying quote or in kind, with or "
+        "without an InstrumentSpec (large minima, asset / contract / quote quantity units); accounts WITHOUT any balance (0 assets, 0 instruments); up to 5 assets and 4 instruments. The model "
+        "checks the shape's syntax and ignores its content (no path of the exchange reads more than `underlying`). A case is distinct by the SHA-1 of its op lines and non-trivial when the implementation's observation blocks differ at least once")
 ASSUMPTIONS = [
     "configuration well formed: every initial balance has total = free and both assets of every configured instrument have a balance "
     "(otherwise MockExchange::open_order panics on its own assert_eq!/expect; model and harness both report `panic`, the spec is silent)",
+    "instrument kind, contract size, settlement asset, quote convention and InstrumentSpec of a configured instrument are NOT looked at: the spent asset is the underlying quote (buy) / "
+    "base (sell) and the amount price x |q| x (1 + fee) resp. |q| x (1 + fee) for derivatives too (as the code does; generated since the configuration-shape audit); the settlement asset "
+    "needs no balance",
     "the initial account snapshot carries no orders (the exchange never creates any: orders_open / instruments of a snapshot stay empty)",
     "asset and instrument names are distinct (hash-map keys); initial balances >= 0 only for the non_negative theorem",
     "'quantity' in the required amounts is the magnitude |q| (the code takes quantity.abs()); fee percentage, prices and quantities are otherwise arbitrary",
@@ -36,6 +44,11 @@ def signature(ops, k, key, impl_line, spec_line):
     """clause of the property that failed + discriminating class of the request"""
     op = ops[k].split() if k < len(ops) else ["?"]
     mode = ops[0].split()[1] if ops and len(ops[0].split()) > 1 else "?"
+    if ":" in mode:
+        # configuration shape `<mode>:<exchange>:<instrument tokens>`: class = mode + the instrument kinds present
+        parts = mode.split(":")
+        kinds = "".join(sorted({t[0] for t in parts[2].split(".") if t})) if len(parts) > 2 else ""
+        mode = "%s+shape(%s,%s)" % (parts[0], parts[1] if len(parts) > 1 else "?", kinds or "-")
     cls = op[0]
     if op[0] == "open" and len(op) >= 5:
         cls = "open_%s_%s" % ({"B": "buy", "S": "sell"}.get(op[3], "?"), {"M": "market", "L": "limit"}.get(op[4], "?"))
